@@ -186,7 +186,7 @@ class ParseResults:
             name = str(name)
 
         if not modal:
-            self._all_names = {name}
+            self._all_names.add(name)
 
         self._name = name
 
